@@ -339,15 +339,30 @@ def oracle(case, result):
         rows = [dec_val(r) for r in case[2]]
         if label == 'valid':
             if isinstance(result, Err):
+                if result.name == 'AttributeError' and any(has_reordered_row(case[1], r) for r in rows):
+                    # not the verifier: toInternal converts a re-ordered Row positionally
+                    verifier = T._make_type_verifier(build_type(case[1]))
+                    try:
+                        for r in rows:
+                            verifier(r)
+                        return ('create_s:row-field-order:raises-after-verification',
+                                f'createDataFrame({rows!r}, {case[1]!r}) raises {result.name} after verification passed')
+                    except Exception:  # pylint: disable=broad-except
+                        pass
                 return (f'create_s:valid-rows-rejected:{result.name}', f'{case[1]!r} {rows!r}')
             out = [dec_val(r) for r in result]
             names = tuple(f[0] for f in case[1][1])
+            reordered = any(has_reordered_row(case[1], r) for r in rows)
             for a, b in zip(out, rows):
                 if isinstance(b, T.Row):
-                    ok = same(a, b)
+                    # the values under the right names: every Row (top level and nested) re-listed in schema order
+                    ok = same(a, by_name(case[1], b))
                 else:
                     ok = isinstance(b, tuple) and tuple(a.__fields__) == names and same(tuple(a), b)
                 if not ok:
+                    if reordered:
+                        return ('create_s:row-field-order:values-under-wrong-names',
+                                f'{rows!r} under {case[1]!r} came back as {out!r}')
                     return ('create_s:collect-differs', f'{rows!r} came back as {out!r}')
             if len(out) != len(rows):
                 return ('create_s:collect-differs', f'{rows!r} came back as {out!r}')
@@ -968,6 +983,106 @@ def late_cases(rng, t, full, quick):
     return cases
 
 
+def reorder(rng, t, v, how='sorted'):
+    """The same value with every Row's fields listed in another order than the schema's (as Row(**kwargs) does:
+    alphabetical; or reversed / shuffled).  Values that do not have the shape of t are left alone."""
+    if v is None or isinstance(t, str) or t[0] == 'decimal':
+        return v
+    if t[0] == 'array':
+        return [reorder(rng, t[1], x, how) for x in v] if isinstance(v, list) else v
+    if t[0] == 'map':
+        return {k: reorder(rng, t[2], x, how) for k, x in v.items()} if isinstance(v, dict) else v
+    names = [f[0] for f in t[1]]
+    if not isinstance(v, T.Row) or list(getattr(v, '__fields__', ())) != names or len(v) != len(names):
+        return v
+    vals = [reorder(rng, f[1], x, how) for f, x in zip(t[1], tuple(v))]
+    idx = list(range(len(names)))
+    if how == 'sorted':
+        idx.sort(key=lambda i: names[i])
+    elif how == 'reversed':
+        idx.reverse()
+    else:
+        rng.shuffle(idx)
+    return T.create_row([names[i] for i in idx], [vals[i] for i in idx])
+
+
+def has_reordered_row(t, v):
+    """Some Row (top level or nested) lists its fields in another order than the schema."""
+    if v is None or isinstance(t, str) or t[0] == 'decimal':
+        return False
+    if t[0] == 'array':
+        return isinstance(v, (list, tuple)) and any(has_reordered_row(t[1], x) for x in v)
+    if t[0] == 'map':
+        return isinstance(v, dict) and any(has_reordered_row(t[2], x) for x in v.values())
+    names = [f[0] for f in t[1]]
+    if not isinstance(v, T.Row) or not hasattr(v, '__fields__'):
+        return False
+    if list(v.__fields__) != names:
+        return True
+    return any(has_reordered_row(f[1], x) for f, x in zip(t[1], tuple(v)))
+
+
+def by_name(t, v):
+    """What the value means when Rows are matched to the schema by field name: every Row re-listed in schema order
+    (None if a name is missing)."""
+    if v is None or isinstance(t, str) or t[0] == 'decimal':
+        return v
+    if t[0] == 'array':
+        return [by_name(t[1], x) for x in v] if isinstance(v, list) else v
+    if t[0] == 'map':
+        return {k: by_name(t[2], x) for k, x in v.items()} if isinstance(v, dict) else v
+    names = [f[0] for f in t[1]]
+    if not isinstance(v, T.Row) or sorted(getattr(v, '__fields__', ())) != sorted(names):
+        return v
+    fields = list(v.__fields__)
+    return T.create_row(names, [by_name(f[1], v[fields.index(f[0])]) for f in t[1]])
+
+
+MIXED_FIELDS = [('z', 'byte', False), ('m', 'long', True), ('a', 'string', True), ('k', 'double', False),
+                ('b', 'boolean', True), ('y', 'short', False), ('c', 'timestamp', True), ('d', 'date', False),
+                ('x', 'integer', True), ('e', 'binary', True)]
+
+
+def mixed_struct(rng, n=None, depth=1):
+    """A struct whose fields differ in type, range and nullability and are NOT in alphabetical order."""
+    while True:
+        fs = rng.sample(MIXED_FIELDS, n or rng.randint(2, 4))
+        names = [f[0] for f in fs]
+        if names != sorted(names):
+            break
+    out = []
+    for nm, ty, nl in fs:
+        if depth > 1 and rng.random() < 0.35:
+            inner = mixed_struct(rng, None, depth - 1)
+            r = rng.random()
+            ty = inner if r < 0.4 else ('array', inner, rng.random() < 0.5) if r < 0.7 else ('map', 'string', inner, rng.random() < 0.5)
+        out.append((nm, ty, nl, ([],)))
+    return ('struct', out)
+
+
+def reordered_cases(rng, t, quick):
+    """Explicit schema t whose field order differs from the Rows' own order: valid rows (accepted; collect gives
+    the values under the right names) and single-position damages (rejected), through the verifier and
+    createDataFrame(rows, schema)."""
+    cases = []
+    full = gen_value(rng, t, False, 0.0, 1)
+    for how in ('sorted', 'reversed', 'shuffled'):
+        v = gen_value(rng, t, False, 0.25, 0)
+        rv = reorder(rng, t, v, how)
+        cases.append(('verify', t, False, enc_val(rv), 'valid'))
+        cases.append(('create_s', t, enc_rows([rv]), 'valid'))
+    rfull = reorder(rng, t, full, 'sorted')
+    cases.append(('create_s', t, enc_rows([rfull, full]), 'valid'))
+    bad = [c for c in corruptions(rng, t, full, False)
+           if c[0].partition(':')[0] in ('null', 'wrong-type', 'out-of-range') and isinstance(c[1], T.Row)]
+    for label, v in (bad if len(bad) <= 8 else rng.sample(bad, 8)):
+        rv = reorder(rng, t, v, rng.choice(['sorted', 'reversed', 'shuffled']))
+        cases.append(('verify', t, False, enc_val(rv), label))
+        if rng.random() < 0.5:
+            cases.append(('create_s', t, enc_rows([rv]), label))
+    return cases
+
+
 def rows_cases(rng, t, quick):
     """The row-level cases derived from one top-level struct tree t."""
     cases = []
@@ -1116,6 +1231,8 @@ def generate(rng, tier):
     vt = [e for e in cols_used] + [rand_row_tree(rng, 3, with_null=rng.random() < 0.2) for _ in range(40 if quick else 800)]
     for t in (vt if not quick else rng.sample(vt, 120)):
         cases.extend(verify_cases(rng, t, quick))
+    for _ in range(60 if quick else 1200):
+        cases.extend(reordered_cases(rng, mixed_struct(rng, None, rng.choice([1, 1, 2, 3])), quick))
     cases.extend(row_cases(rng, 80 if quick else 1500))
     cases.extend(merge_cases(rng, trees + d1[:50], 150 if quick else 3000))
     return cases
